@@ -525,7 +525,7 @@ def findD (fuel : Nat) (root : Val) (sp : Pos) (ps entry : Bool) (toks : List St
             | .ok false => .ok (root, { parent := par, nameIdx := Option.none, value := Val.none, found := found, notFound := some (tok :: rest) })
       else
         match pv with
-        | .list _ (_ :: _) => findD fuel root sp ps false (bracket ['*'] :: tok :: rest) par rl found
+        | .list _ _ => findD fuel root sp ps false (bracket ['*'] :: tok :: rest) par rl found   -- an empty list too (fix C06-e)
         | .dict _ kvs =>
           match lookup k kvs with
           | Option.none => .ok (root, { parent := par, nameIdx := Option.none, value := Val.none, found := found, notFound := some (tok :: rest) })
